@@ -37,6 +37,7 @@ type LoopSpec struct {
 	Decreases  *Clause
 	DecreasesLex []Clause // lexicographic measure (decreases e1, e2, ...)
 	Unroll     int
+	NoMerge    bool // continue from every exit of the loop separately (the code after the loop is executed once per exit path)
 	Uses       []Clause // instances of separately proved lemmas, assumed at the loop head
 }
 
@@ -198,6 +199,11 @@ func parseContractFile(path string) (*ContractFile, error) {
 				} else {
 					ls.Decreases = &cl
 				}
+			case "paths":
+				if strings.TrimSpace(m[3]) != "separate" {
+					return nil, fmt.Errorf("%s:%d: loop N: paths separate", path, lineNo)
+				}
+				ls.NoMerge = true
 			case "unroll":
 				k, err := strconv.Atoi(strings.TrimSpace(m[3]))
 				if err != nil {
@@ -307,8 +313,27 @@ func recvTypeName(e ast.Expr) string {
 // They are rewritten to the Go-parsable calls implies_(a,b), forall_(i,lo,hi,body), exists_(...).
 // ---------------------------------------------------------------------------
 
+// expandMacros: sortedStrict(E) stands for the pairwise form of "E is strictly ascending" (the pairwise form needs no
+// induction to be used: any two indexes can be compared directly).
+func expandMacros(s string) string {
+	for n := 0; ; n++ {
+		k := strings.Index(s, "sortedStrict(")
+		if k < 0 {
+			return s
+		}
+		open := k + len("sortedStrict")
+		j := matchParen(s, open)
+		if j < 0 {
+			return s
+		}
+		e := strings.TrimSpace(s[open+1 : j])
+		a, b := fmt.Sprintf("sa%d__", n), fmt.Sprintf("sb%d__", n)
+		s = s[:k] + fmt.Sprintf("(forall %s in 0..len(%s): forall %s in 0..len(%s): %s < %s ==> %s[%s] < %s[%s])", a, e, b, e, a, b, e, a, e, b) + s[j+1:]
+	}
+}
+
 func parseCExpr(s string) (ast.Expr, error) {
-	r, err := rewriteCExpr(strings.TrimSpace(s))
+	r, err := rewriteCExpr(expandMacros(strings.TrimSpace(s)))
 	if err != nil {
 		return nil, err
 	}
